@@ -136,19 +136,20 @@ func VerifC01Adversary() {
 	r := vChoice("record", n)
 	gomod := vChoice("gomod", 2) == 1
 	// which parts of the environment misbehave: up to maxfaults of
-	// {record id, record text, tree head, tiles, lookup cache entry}
-	var bad [5]bool
+	// {record id, record text, tree head, tiles, lookup cache entry, partial tiles gone and full tiles with arbitrary tails}
+	var bad [6]bool
 	nf := vChoice("nfaults", vParam("maxfaults", 1)+1)
 	last := -1
 	for i := 0; i < nf; i++ {
-		d := last + 1 + vChoice("fault", 5-last-1)
+		d := last + 1 + vChoice("fault", 6-last-1)
 		bad[d] = true
 		last = d
-		if last == 4 {
+		if last == 5 {
 			break
 		}
 	}
 	ops.freeTiles = bad[3]
+	ops.dropPartial = bad[5]
 	// the adversarial lookup response
 	respond := func() []byte {
 		id := int64(r)
